@@ -187,6 +187,13 @@ def sub_history(inp):
                 role = step[2]
                 if src is None or (role == 'trigger' and p.pattern.trigger is None):
                     raise ValueError('no such position')
+                # not the shape of the known finding F13 (an alias bound by only some alternatives of what becomes a split
+                # position, and referred to by the other pattern event): that is judged by its own labelled family
+                alts = astx.flat_events(src)
+                partial = {str.__str__(e.alias) for e in alts if e.alias and sum(1 for x in alts if x.alias == e.alias) < len(alts)}
+                other = p.pattern.behaviour if role == 'trigger' else p.pattern.trigger
+                if partial and other is not None and partial & {str.__str__(n) for se in astx.flat_events(other) for n in astx.free_refs(se.predicate)}:
+                    raise ValueError('F13 shape')
                 return p.but(pattern=p.pattern.but(**{role: src}))
 
             st, q = core.guarded(_shared)
